@@ -593,9 +593,10 @@ class ExcelModel:
                 except AttributeError:
                     pass
         if dirpath:
-            os.makedirs(dirpath, exist_ok=True)
             for fpath, d in books.items():
-                d[BOOK].save(osp.join(dirpath, _decode_path(fpath)))
+                fpath = osp.join(dirpath, _decode_path(fpath))
+                os.makedirs(osp.dirname(fpath) or '.', exist_ok=True)
+                d[BOOK].save(fpath)  # Books of sub-folders keep their folder.
         return books
 
     def compile(self, inputs, outputs):
